@@ -229,9 +229,11 @@ def check_binop(ctx, op, g, m, h, mh, det):
     else:
         if snap(g) != sg:
             ctx.fail(f'{op}:left-operand-mutated', detail=d2)
+        if h is g and snap(h) != sh:
+            ctx.fail(f'{op}:operand-mutated', detail=d2)
         if u is g:
             ctx.fail(f'{op}:returned-operand', detail=d2)
-    if snap(h) != sh:
+    if h is not g and snap(h) != sh:
         ctx.fail(f'{op}:right-operand-mutated', detail=d2)
     if list(u.triples) != mu.triples:
         ctx.fail(f'{op}:triples', detail=dict(d2, got=u.triples, want=mu.triples))
@@ -355,6 +357,22 @@ def oracle(ctx, kind, p):
             tr = tr + rng.sample(shared, rng.randrange(0, 4))
             rng.shuffle(tr)
             pool.append(mk(tr, top, ep, meta))
+        if p['i'] % 7 == 0:
+            # the same object on both sides
+            g0, m0 = pool[0]
+            for op in (['-=', '|='], ['|=', '-='], ['-'], ['|'])[p['i'] % 4]:
+                det = {'history': [[op, 0, 0]], 'same_object': True}
+                u, mu = check_binop(ctx, op, g0, m0, g0, m0.copy() if op in ('|=', '-=') else m0, det)
+                if u is None:
+                    break
+                if op in ('|=', '-='):
+                    mu.epi = {t: markers(u, t) for t in u.epidata if markers(u, t)}
+                    check_queries(ctx, u, mu, det)
+                    if op == '-=' and u.epidata:
+                        ctx.fail('-=:markers-of-removed-triple-left', mech='same-object',
+                                 detail=dict(det, left=repr(u.epidata)[:300]))
+            ctx.count('same_object_operands')
+            pool[0] = mk(m0.triples if False else [t for t in pool[1][1].triples], None)
         nsteps = rng.randrange(1, 7)
         history = []
         # half of the histories query only at the end (after warming every graph up with one
